@@ -59,7 +59,7 @@ theorem analyze_error_rate_def (i : K) (nsq : K → Q) (c : Circ K) (rules : Lis
     (inputs : List (List Occ)) (ex : List (List FState)) (r : AnalysisResult Q)
     (h : analyze i nsq c rules inputs (some ex) = .ok r) :
     r.errorRate = some (sumQ ((r.probs.zip ex).map fun (row, exps) =>
-        exps.foldl (fun e o => match r.outputs.idxOf? o with
+        exps.eraseDups.foldl (fun e o => match r.outputs.idxOf? o with
           | some k => e - row.getD k 0 / sumQ row
           | none => e) 1) / (((r.probs.zip ex).length : Nat) : Q)) :=
   Proofs.C05.analyze_error_rate_def i nsq c rules inputs ex r h
